@@ -20,6 +20,10 @@ _FRAME = re.compile(r"^\s*#\d+ 0x[0-9a-f]+ in (\S+)")
 def san_signature(text):
     """Sanitizer report -> stable signature (kind + top 3 repo frames, no line numbers)."""
     kind = None
+    m = re.search(r"(\w[\w:~]*)\([^)]*\): Assertion `(.*?)' failed", text) or re.search(r"()Assertion `(.*?)' failed", text)
+    if m:
+        fn = re.search(r"(\w+::\w+|\w+)\s*\([^()]*(\([^()]*\)[^()]*)*\): Assertion", text)
+        return "assert:%s@%s" % (m.group(2)[:70], fn.group(1) if fn else "?")
     m = re.search(r"ERROR: AddressSanitizer: ([\w-]+)", text)
     if m:
         kind = "asan:" + m.group(1)
